@@ -39,6 +39,11 @@ var syncPkgs = map[string]bool{"eth": true, "jrpc2": true, "dig": true, "shovel"
 // packages in which errgroup is replaced (jrpc2's errgroup lives only inside Client.do: nested helpers, left real)
 var egPkgs = map[string]bool{"shovel": true}
 
+// packages (module-relative) in which every statement is preceded by a scheduling point, from the environment
+// variable VERIF_STMT_YIELD (comma separated): code without synchronisation operations (HTTP handlers) becomes
+// interleavable at statement granularity. Such a package is rewritten like a target and gets the sync shim.
+var stmtYield = map[string]bool{}
+
 type overlay struct {
 	Replace map[string]string
 }
@@ -66,6 +71,20 @@ func main() {
 	flag.Parse()
 	if *out == "" {
 		fatal(false, "-out required")
+	}
+	for _, p := range strings.Split(os.Getenv("VERIF_STMT_YIELD"), ",") {
+		if p = strings.TrimSpace(p); p == "" {
+			continue
+		}
+		stmtYield[p] = true
+		syncPkgs[p] = true
+		found := false
+		for _, t := range targets {
+			found = found || t == p
+		}
+		if !found {
+			targets = append(targets, p)
+		}
 	}
 	baseOv := overlay{Replace: map[string]string{}}
 	if *base != "" {
@@ -300,10 +319,31 @@ func (rw *rewriter) block(b *ast.BlockStmt) *ast.BlockStmt {
 }
 
 func (rw *rewriter) stmts(list []ast.Stmt) []ast.Stmt {
+	var labels []string
+	if stmtYield[rw.pkg] {
+		for _, s := range list {
+			p := rw.fset.Position(s.Pos())
+			labels = append(labels, fmt.Sprintf("stmt:%s:%d", filepath.Base(p.Filename), p.Line))
+		}
+	}
 	for i := range list {
 		list[i] = rw.stmt(list[i])
 	}
-	return list
+	if !stmtYield[rw.pkg] {
+		return list
+	}
+	for _, s := range list {
+		switch s.(type) {
+		case *ast.CaseClause, *ast.CommClause:
+			return list // the clause list of a switch/select: points go inside the clause bodies
+		}
+	}
+	out := make([]ast.Stmt, 0, 2*len(list))
+	for i, s := range list {
+		out = append(out, &ast.ExprStmt{X: rw.call("Yield", &ast.BasicLit{Kind: token.STRING, Value: strconv.Quote(labels[i])})}, s)
+		rw.note("stmt-yield")
+	}
+	return out
 }
 
 func isPkgFunc(info *types.Info, e ast.Expr, pkg, name string) bool {
